@@ -3,6 +3,7 @@ CONSTANTS Vars <- VarsXYZ
  Kinds <- KindsC18
  LitIdx <- LitsC18
  Imports <- Both
+ Shape = "free"
  Emit = TRUE
 SPECIFICATION Spec
 INVARIANTS FrozenIrrelevant EmitCase
